@@ -219,15 +219,19 @@ def c02(ctx):
     pools = []
     for _ in range(npools):
         pool = set(C02_SEEDS)
+        bases = [pep440gen.base_release(rng, 0.1) for _ in range(3)]
         tries = 0
         while len(pool) < size and tries < size * 30:
             tries += 1
             r = rng.random()
-            if r < 0.55:
+            if r < 0.6:
+                # clusters: many versions of the same release, so that the attachments decide
+                pool.add(pep440gen.grammar(rng, 0.12, base=pick_base(rng, bases)))
+            elif r < 0.72:
                 pool.add(pep440gen.grammar(rng, 0.12))
-            elif r < 0.8:
+            elif r < 0.87:
                 pool.add(pep440gen.normal(rng))
-            elif r < 0.95:
+            elif r < 0.96:
                 pool.add(versions.pep440(rng, strict=rng.random() < 0.5))
             else:
                 pool.add(pep440gen.edge(rng))
@@ -238,51 +242,54 @@ def c02(ctx):
     normals = {}
     for pool, gl, ml in zip(pools, go, mo):
         parsed, gm, unstable, _laws = parse_sx(gl)
-        spec, macc, pairs = parse_sx(ml)
+        spec, macc, smat, mmat = parse_sx(ml)
         all_strs += pool
         all_spec += [sx(x) for x in spec]
-        n_go = sum(1 for p in parsed if p[0] == b"ok")
-        gidx = {}
-        for i, p in enumerate(parsed):
-            if p[0] == b"ok":
+        gidx, sidx, midx = {}, {}, {}
+        for i in range(len(pool)):
+            if parsed[i][0] == b"ok":
                 gidx[i] = len(gidx)
+            if spec[i][0] == b"ok":
+                sidx[i] = len(sidx)
+            if macc[i] == b"ok":
+                midx[i] = len(midx)
+        n_go, n_sp, n_mo = len(gidx), len(sidx), len(midx)
         # model accepts exactly what Go accepts (parser correspondence)
         for i, s in enumerate(pool):
             if (parsed[i][0] == b"ok") != (macc[i] == b"ok"):
                 ctx.divergence("svm_parse_pypi(accept)", {"string": s}, parsed[i][0], macc[i])
-        both = [i for i in range(len(pool)) if spec[i][0] == b"ok" and macc[i] == b"ok" and parsed[i][0] == b"ok"]
+        both = [i for i in range(len(pool)) if i in sidx and i in gidx]
         ctx.count("c02-pool:strings", len(pool))
-        ctx.count("c02-pool:spec-accepted", sum(1 for x in spec if x[0] == b"ok"))
+        ctx.count("c02-pool:spec-accepted", n_sp)
         ctx.count("c02-pool:go-accepted", n_go)
         ctx.count("c02-pool:both", len(both))
-        nb = sum(1 for i in range(len(pool)) if spec[i][0] == b"ok" and macc[i] == b"ok")
-        if nb != len(both) or len(pairs) != 2 * nb * nb:
-            continue   # accept mismatch already reported above
         for i in range(len(pool)):
             if spec[i][0] == b"ok":
+                if not spec[i][3]:
+                    ctx.divergence("spec_wf", {"string": pool[i]}, "well-formed reference version", sx(spec[i]))
                 normals[spec[i][1]] = pool[i]
                 if parsed[i][0] != b"ok" and spec[i][1] != pool[i]:
                     ctx.count("c02:reference-accepts-nonnormal-spelling-go-rejects")
-        ctx.evaluations += nb * nb
-        for a, i in enumerate(both):
+        ctx.evaluations += len(both) * len(both)
+        for i in both:
             ctx.nontriv(("c02", pool[i]))
-            for b, j in enumerate(both):
-                sc = pairs[2 * (a * nb + b)]
-                mc = pairs[2 * (a * nb + b) + 1]
+            for j in both:
+                sc = smat[sidx[i] * n_sp + sidx[j]]
                 gc = _sign(gm[gidx[i] * n_go + gidx[j]])
-                if mc != gc:
+                mc = mmat[midx[i] * n_mo + midx[j]] if (i in midx and j in midx) else None
+                if mc is not None and mc != gc:
                     ctx.divergence("svm_cmp(c02)", {"a": pool[i], "b": pool[j]}, gc, mc)
                 if gc != sc:
                     indom = bool(spec[i][2]) and bool(spec[j][2])
-                    ctx.count("c02:order-differs-from-reference")
                     width = bool(spec[i][5]) and bool(spec[j][5])
+                    ctx.count("c02:order-differs-from-reference")
                     fid = None
-                    if mc != sc and not indom:
+                    if mc is not None and mc != sc and not indom:
                         fid = "F-C02-2" if width else "F-C02-22"
                     _hit(ctx, known, fid,
                          "PyPI: ordering differs from PEP 440 (packaging)" + ("" if not indom else " inside the domain of C02_pypi_partial"),
                          {"system": "PyPI", "a": pool[i], "b": pool[j]}, observed=gc, required=sc)
-                elif len(ctx.samples) < 3 and a != b and rng.random() < 0.001:
+                elif len(ctx.samples) < 3 and i != j and rng.random() < 0.001:
                     ctx.sample({"a": pool[i].decode("latin1"), "b": pool[j].decode("latin1"), "go": gc, "reference": sc})
     # normalised forms must be accepted
     nl = sorted(normals)
@@ -296,6 +303,10 @@ def c02(ctx):
                  {"system": "PyPI", "string": s, "normal form of": normals[s]}, observed="err", required="accepted")
     _packaging(ctx, all_strs, all_spec)
     _replay_known(ctx, known)
+
+
+def pick_base(rng, bases):
+    return bases[rng.randrange(len(bases))]
 
 
 def _replay_known(ctx, known):
